@@ -36,7 +36,7 @@ def component_of(case):
             'fftin': 'FftFixedIn', 'fftout': 'FftFixedOut', 'fftinout': 'FftFixedInOut'}.get(cfg.get('kind'), 'model')
 
 
-META_KEYS = ('cfg', 'ops', 'warp', 'sig', 'mask', 'nsuffix', 'kind', 'component', 'n0', 'ratio', 'tones', 'fam', 'mode', 'pedge',
+META_KEYS = ('cfg', 'ops', 'warp', 'fatal_check', 'sig', 'mask', 'nsuffix', 'kind', 'component', 'n0', 'ratio', 'tones', 'fam', 'mode', 'pedge',
              'fft_in', 'exact', 'no_model', 'threads', 'migrate')
 
 
@@ -65,7 +65,9 @@ def execute(ctx, cases, res, judge=None, timeout=120, release=False):
         if key not in seen:
             seen.add(key)
         if ctx.with_model and not c.meta.get('no_model'):
-            if c.diff is None:
+            if c.diff is None and getattr(c, 'model_timeout', False):
+                res['n_model_timeout'] = res.get('n_model_timeout', 0) + 1      # prefix agreed; not counted as validated
+            elif c.diff is None:
                 res['n_corr'] += 1
             else:
                 res['disagreements'].append({'component': component_of(c), 'case': c.name, 'diff': c.diff,
@@ -847,11 +849,15 @@ def directed_ramp_cases(rng, tag, linear_index_signal):
         cases.append(c)
     # large chunks relative to the filter length on the fixed-output sinc type: upward and downward ramps followed by four calls
     # (an input request that is wrong by a fraction of the chunk shows two or three calls later)
-    for i in range(8):
+    for i in range(16):
+        small = i >= 8          # small ramps on large chunks: a request that is wrong in the first order of the step shows, one
+                                # that is wrong in the second order (the unmodified code) does not
         r = rng.fork("%s_drs_%d" % (tag, i))
         cfg = async_cfg(r, 'sincout', 'quick', nch=1, ty='f64')
-        cfg.update({'chunk': r.choice([256, 512]), 'maxrel': r.choice([1.5, 2.0]), 'ratio': 1.0, 'slen': 16, 'L': 16,
-                    'interp': 'default', 'factor': max(2, cfg['factor'])})
+        cfg.update({'chunk': r.choice([256, 512]) if not small else r.choice([1024, 2048]), 'maxrel': r.choice([1.5, 2.0]), 'ratio': 1.0,
+                    'slen': 16, 'L': 16, 'interp': 'default', 'factor': max(2, cfg['factor'])})
+        if small and linear_index_signal:
+            cfg['itype'] = 2; cfg['factor'] = max(cfg['factor'], 256)      # linear inter-branch blend reproduces the index ramp
         tr = RatioTracker(cfg)
         sig = "ramp" if linear_index_signal else "rand:%d" % r.below(10 ** 6)
         lines = ["T ty=f64", new_line(cfg)]
@@ -863,6 +869,9 @@ def directed_ramp_cases(rng, tag, linear_index_signal):
         pib2(); pib2()
         frac = [0.3, 0.6, 0.9, 0.999][i % 4]
         bound = tr.hi if i < 6 else tr.lo
+        if small:
+            frac = [0.05, 0.1, 0.2, 0.3][i % 4]
+            bound = tr.lo if i % 2 == 0 else tr.hi
         x = min(max(tr.ratio + frac * (bound - tr.ratio), tr.lo), tr.hi)
         lines.append("SETRATIO x=%s ramp=1" % f64hex(x))
         tr.set_ratio(x, True); ops.append({'op': 'setratio', 'ratio': x, 'ramp': True})
@@ -918,6 +927,10 @@ def judge_C04(c):
     sent = SENTINEL64 if tr['ty'] == 'f64' else SENTINEL32
     prev = tr['init']
     tainted = None
+    # the smallest input_frames_max() / output_frames_max() reported so far: buffers allocated at that moment must stay
+    # sufficient for the whole life of the resampler
+    low_in_max = tr['init'].g[0] if tr['init'].g else None
+    low_out_max = tr['init'].g[2] if tr['init'].g else None
     for i, (s, a) in enumerate(zip(tr['steps'], c.meta['ops'])):
         env = a.get('envelope', True)
         if not env and tainted is None:
@@ -928,6 +941,12 @@ def judge_C04(c):
         g = s.g
         if g and (g[1] > g[0] or g[3] > g[2]):
             out.append(fail(c, i, "after %s: input_frames_next %d / max %d, output_frames_next %d / max %d" % (s.op, g[1], g[0], g[3], g[2]), cls))
+        elif g and low_in_max is not None and (g[1] > low_in_max or g[3] > low_out_max):
+            out.append(fail(c, i, "after %s: input_frames_next %d / output_frames_next %d exceed the input_frames_max() = %d / output_frames_max() = %d "
+                            "reported earlier in the life of this resampler (buffers allocated then are too short now)"
+                            % (s.op, g[1], g[3], low_in_max, low_out_max), cls))
+        if g and low_in_max is not None:
+            low_in_max, low_out_max = min(low_in_max, g[0]), min(low_out_max, g[2])
         if s.res == 'counts' and s.op == 'PIB':
             nin, nout = int(s.fields[0]), int(s.fields[1])
             if nin != prev.g[1]:
@@ -963,6 +982,28 @@ def run_C04(ctx):
     cases = valid_stream(ctx, 84, 1400, 'g')
     if getattr(ctx, 'golden', False):
         cases += directed_ramp_cases(ctx.rng, 'g', False)
+    else:
+        # directed: the ratio is raised to the upper bound (getters read there), then lowered to the lower bound, non-ramped,
+        # on all four asynchronous types: what input_frames_max() / output_frames_max() said at any time must still hold
+        for j, k in enumerate(['fastout', 'sincout', 'fastin', 'sincin']):
+            r = ctx.rng.fork("c04_swing_%d" % j)
+            cfg = async_cfg(r, k, 'quick', nch=1)
+            cfg.update({'ratio': 1.0, 'maxrel': 2.0, 'chunk': r.choice([64, 256])})
+            if k.startswith('sinc'):
+                cfg.update({'slen': 16, 'L': 16}); cfg['factor'] = max(cfg['factor'], 2)
+            sig = "rand:%d" % r.below(9999)
+            pib = "PIB mask=- inlen=next outlen=next sig=%s" % sig
+            lines = ["T ty=%s" % cfg['ty'], new_line(cfg), pib, "SETREL x=%s ramp=0" % f64hex(2.0), pib, pib,
+                     "SETREL x=%s ramp=0" % f64hex(0.5), pib, pib, "SETREL x=%s ramp=0" % f64hex(1.0), pib]
+            tr = RatioTracker(cfg)
+            ops = []
+            for l in lines[2:]:
+                if l.startswith('PIB'):
+                    ok, why = tr.envelope(); ops.append({'op': 'pib', 'envelope': ok, 'why': why}); tr.processed()
+                else:
+                    x = {2.0: 2.0, 0.5: 0.5, 1.0: 1.0}[hexf64(parse_kv(l)['x'])]
+                    tr.set_ratio(x * cfg['ratio'], False); ops.append({'op': 'setrel', 'ratio': x, 'ramp': False})
+            cases.append(Case("g_swing_%d_%s" % (j, k), lines, {'cfg': cfg, 'ops': ops, 'sig': sig}))
     execute(ctx, cases, res, judge_C04, timeout=300)
     res['dist'].update(collections.Counter(c.meta['cfg']['kind'] for c in cases))
     return res
@@ -1182,11 +1223,27 @@ def run_C06(ctx):
             prev = s
         return out
 
+    def judge_fatal(c):
+        # sinc types: the instants are not observable through the samples; what is observable is a window that leaves the
+        # supplied frames altogether (failed assert / out-of-range slice)
+        for i, (s, a) in enumerate(zip(c.trace['steps'], c.meta['ops'])):
+            if s.res in FATAL:
+                env = a.get('envelope', True)
+                return [fail(c, i, "%s ended with %s: frames were read outside the supplied input%s" %
+                             (s.op, s.res, '' if env else ' (outside the proven envelope: %s)' % a.get('why')),
+                             None if env else base_class(a.get('why', '')))]
+        return []
+
     def judge(c):
-        return (judge_C06(c) if c.meta.get('warp') else []) + judge_setters(c)
+        return (judge_C06(c) if c.meta.get('warp') else []) + (judge_fatal(c) if c.meta.get('fatal_check') else []) + judge_setters(c)
 
     if getattr(ctx, 'golden', False):
-        cases += [c for c in directed_ramp_cases(ctx.rng, 'warp', True) if c.meta['cfg']['kind'].startswith('fast')]
+        dr = directed_ramp_cases(ctx.rng, 'warp', True)
+        cases += [c for c in dr if c.meta['cfg']['kind'].startswith('fast')]
+        for c in dr:
+            if c.meta['cfg']['kind'] == 'sincout':
+                c.meta['warp'] = False; c.meta['fatal_check'] = True
+                cases.append(c)
     execute(ctx, cases + sinc, res, judge, timeout=300)
     res['dist'].update({'ramp_histories': len(cases), 'sinc_histories': len(sinc),
                         'ratio_changes': sum(1 for c in cases for a in c.meta['ops'] if a['op'] in ('setratio', 'setrel'))})
@@ -1557,6 +1614,11 @@ def run_C11(ctx):
         head = ["T ty=%s" % cfg['ty']]
 
         kinds_seq = [r.below(5) for _ in range(nops)]
+        if k in ('sincin', 'sincout'):
+            # chunk-size changes in mid-stream (one scalar of control state shared by all channels)
+            nops += 3
+            kinds_seq = [r.below(7) for _ in range(nops)]
+        chunk_seq = [1 + r.below(max(1, cfg.get('chunk', 1))) for _ in range(nops)]
 
         def body(nchan, mk, sig, empty_masked):
             lines = []
@@ -1568,8 +1630,10 @@ def run_C11(ctx):
                 t = kinds_seq[j]
                 if t < 4:
                     lines.append("PIB mask=%s inlen=%s outlen=%s sig=%s" % (mk or '-', il, ol, sig))
-                else:
+                elif t == 4:
                     lines.append("PROCESS mask=%s inlen=%s sig=%s" % (mk or '-', il, sig))
+                else:
+                    lines.append("SETCHUNK n=%d" % chunk_seq[j])
             return lines
         sig = "rand:%d" % seed
         a = Case("ch_%04d_%s_masked" % (i, k), head + [new_line(cfg)] + body(nch, mask, sig, True), {'cfg': cfg, 'mask': mask, 'kind': k})
@@ -1873,8 +1937,11 @@ def warm_variants(r, cfg):
         # the last resampler built before the one under test is a near miss: everything equal except a ratio a fraction of a
         # ppm away, or a cutoff one f32 ulp away (what an approximate cache key would confuse)
         c = dict(cfg)
-        if cfg['kind'].startswith('sinc') and r.chance(0.4) and cfg.get('fcut'):
+        if cfg['kind'].startswith('sinc') and r.chance(0.3) and cfg.get('fcut'):
             c['fcut'] = f32round(cfg['fcut'] * (1 + r.choice([-1, 1]) * 2.0 ** -23))
+        elif cfg['kind'].startswith('sinc') and cfg.get('factor', 1) % 2 == 0 and r.chance(0.5):
+            # the same table size split differently: twice the length, half the oversampling factor
+            c['slen'] = c['L'] = 2 * cfg['L']; c['factor'] = cfg['factor'] // 2
         else:
             c['ratio'] = cfg['ratio'] * (1 + r.choice([1e-7, -1e-7, 3e-8, -2e-7]))
         out.append("WARM" + new_line(c)[3:])
@@ -1931,6 +1998,12 @@ def run_C18(ctx):
                                ops_allowed=['pib', 'pib', 'process'])
         c2 = dict(cfg); c2['ratio'] = ratio * (1 + r.choice([1e-7, -1e-7, 2e-7]))
         cases += group("th_near_%02d_%s" % (i, k), h.spec, ["WARM" + new_line(c2)[3:]], cfg, r.choice([2, 4]), 'odd')
+        # ... and right after one with the same number of table entries split differently (sinc_len x oversampling factor)
+        cfg3 = dict(cfg); cfg3['factor'] = 2 * max(1, cfg['factor'] // 2) if cfg['factor'] >= 2 else 2
+        h3 = gens.valid_history(r.fork('h3'), k, 'quick', "th_split_%02d_%s" % (i, k), cfg=cfg3, allow_out_of_envelope=False, nops=4,
+                                ops_allowed=['pib', 'pib', 'process'])
+        c3 = dict(cfg3); c3['slen'] = c3['L'] = 2 * cfg3['L']; c3['factor'] = cfg3['factor'] // 2
+        cases += group("th_split_%02d_%s" % (i, k), h3.spec, ["WARM" + new_line(c3)[3:]], cfg3, r.choice([2, 4]), 'odd')
 
     def judge(c):
         if c.meta.get('is_twin'):
@@ -2608,7 +2681,7 @@ PROPS = {
         'judge_replay': lambda c: judge_C04(c) if 'ops' in c.meta else [],
         'pinned': ['C04_fast_in_counts_R', 'C04_fast_out_counts_R', 'C04_fast_in_next_le_max_R', 'C04_sinc_in_next_le_max_R', 'C04_fast_out_next_le_max_R',
                    'C04_sinc_in_counts_R', 'C04_sinc_out_counts_R', 'C04_fft_in_counts_R', 'C04_fft_out_counts_R', 'C04_fft_inout_counts',
-                   'C04_fast_in_steps_counts_R', 'C04_sinc_in_steps_counts_R', 'C04_fast_out_steps_counts_R', 'C04_sinc_out_steps_counts_R'],
+                   'C04_fast_in_steps_counts_R', 'C04_sinc_in_steps_counts_R', 'C04_fast_out_steps_counts_R', 'C04_sinc_out_steps_counts_R', 'C04_fft_out_next_le_max_R', 'C04_fft_in_next_le_max_R', 'C04_fft_inout_next_eq_max', 'C04_sinc_out_next_le_max_R', 'C04_sinc_out_li_ok', 'C04_f32_quotients_exact', 'C04_fft_out_counts_binary', 'C04_fft_in_counts_binary'],
         'unproved': ['next <= max in binary64 (the inequalities are proved over R; the fix of D7 makes both sides the same association, '
                      'monotonicity of rounding is not formalised)', 'next <= max for the sinc fixed-output and the FFT types: by the predicate on every trace',
                      'ratio changes outside the envelope'],
@@ -2617,7 +2690,7 @@ PROPS = {
     },
     'C06': {
         'run': run_C06,
-        'judge_replay': lambda c: judge_C06(c) if (c.meta.get('warp') and 'ops' in c.meta) else [],
+        'judge_replay': lambda c: (judge_C06(c) if (c.meta.get('warp') and 'ops' in c.meta) else []) + (judge_C03(c) if (c.meta.get('fatal_check') and 'ops' in c.meta) else []),
         'pinned': ['C06_instants_fixed_out_R', 'C06_instants_fixed_in_R', 'C06_loop_ops_R', 'C06_spacing_R', 'C06_increment_fixed_in_R',
                    'C06_increment_fixed_out_R', 'C06_step_immediate_R', 'C06_ramp_interval_R', 'C06_ramp_monotone_R',
                    'C06_steps_positive_R', 'C06_ramp_reaches_target_R', 'C06_after_ramp_R', 'C06_fast_in_step_call_R', 'C06_sinc_in_step_call_R', 'C06_fast_out_step_call_R', 'C06_sinc_out_step_call_R'],
@@ -2663,7 +2736,7 @@ PROPS = {
         'run': run_C10,
         'pinned': ['C10_reset_fresh_fast_in', 'C10_reset_fresh_fast_out', 'C10_reset_fresh_sinc_in', 'C10_reset_fresh_sinc_out',
                    'C10_reset_fresh_fft_in', 'C10_reset_fresh_fft_out', 'C10_reset_fresh_fft_inout', 'C10_reset_after_set_ratio',
-                   'C10_reset_after_set_rel', 'C10_reset_after_set_chunk', 'C10_reset_idempotent', 'C10_reset_after_pib_async'],
+                   'C10_reset_after_set_rel', 'C10_reset_after_set_chunk', 'C10_reset_idempotent', 'C10_reset_after_pib_async', 'C10_reset_after_pib_fft'],
         'unproved': ['reset after a successful process_into_buffer of the three FFT types (shape preservation of their buffers) is compared on '
                      'every trace, not proved', 'the FftResampler scratch/work buffers are not reset by the code; irrelevant if the spectral '
                      'core is a pure function of its input block (checked: same block => same bits, on every run)'],
@@ -2685,7 +2758,7 @@ PROPS = {
     'C09': {
         'run': run_C09,
         'replay_aware': True,
-        'pinned': ['C09_shape_invariant', 'C09_no_alloc_constructs'],
+        'pinned': ['C09_shape_invariant', 'C09_no_alloc_constructs', 'C09_fft_in_shape_invariant', 'C09_fft_out_shape_invariant', 'C09_fft_inout_shape_invariant'],
         'gen_obligations': {'no-alloc-constructs': gen_no_alloc},
         'unproved': ['that the callees outside the crate (rustfft/realfft process_with_scratch, core slice and float methods) do not allocate: '
                      'measured by the counting allocator on every call, not proved',
@@ -2721,7 +2794,7 @@ PROPS = {
         'replay_aware': True,
         'pinned': ['C05_fast_in_call_R', 'C05_fast_in_stream_R', 'C05_fast_out_stream_R', 'C05_fast_chunk_independent_R',
                    'C05_fast_variant_independent_R', 'C05_fft_inout_stream', 'C05_fft_in_call_R', 'C05_fft_in_stream_R',
-                   'C05_fft_out_call_R', 'C05_fft_out_stream_R', 'C05_sinc_in_call_R', 'C05_sinc_in_stream_R'],
+                   'C05_fft_out_call_R', 'C05_fft_out_stream_R', 'C05_sinc_in_call_R', 'C05_sinc_in_stream_R', 'C05_sinc_out_stream_R', 'C05_sinc_variant_independent_R'],
         'unproved': ['SincFixedOut: no stream theorem (its last kernel window can touch one cell beyond the filled region, with zero weight in exact arithmetic, when the last instant is integral and the oversampling factor is small: the content invariant of the proof does not cover that cell); decided by the bit-exact '
                      'model on every member of every family plus the family comparison of the implementation outputs',
                      'FFT types: the spectral core is an oracle with its length contract; FftFixedIn / FftFixedOut: their f32 quotients read as real quotients',
